@@ -45,6 +45,7 @@ OUTER_DOC = {
         {"name": "LOAD_CONST", "arg": {"constant": {"string": "'\\ud800 x'"}, "_index_override": 0}},
         {"name": "LOAD_NAME", "arg": {"name": {"string": "'\\ud800'"}, "_index_override": 0}},
         {"name": "LOAD_FAST", "arg": {"varname": "x"}},
+        {"name": "LOAD_FAST", "arg": {"varname": "substring"}}, {"name": "LOAD_NAME", "arg": {"name": "to_string_int"}}, {"name": "LOAD_CONST", "arg": {"constant": "string"}},
         {"name": "LOAD_DEREF", "arg": {"freevar": "fv"}},
         {"name": "LOAD_CLOSURE", "arg": {"cellvar": "cv", "_index_override": 1}},
         {"name": "JUMP_FORWARD", "arg": {"target": 1, "relative": True}, "_n_args_override": 4},
@@ -68,6 +69,8 @@ OUTER_EXP = E("CodeData", blocks=((
     E("Instruction", name="LOAD_CONST", arg=E("Constant", constant="\ud800 x", _index_override=0)),
     E("Instruction", name="LOAD_NAME", arg=E("Name", name="\ud800", _index_override=0)),
     E("Instruction", name="LOAD_FAST", arg=E("Varname", varname="x")),
+    E("Instruction", name="LOAD_FAST", arg=E("Varname", varname="substring")), E("Instruction", name="LOAD_NAME", arg=E("Name", name="to_string_int")),
+    E("Instruction", name="LOAD_CONST", arg=E("Constant", constant="string")),
     E("Instruction", name="LOAD_DEREF", arg=E("Freevar", freevar="fv")),
     E("Instruction", name="LOAD_CLOSURE", arg=E("Cellvar", cellvar="cv", _index_override=1)),
     E("Instruction", name="JUMP_FORWARD", arg=E("Jump", target=1, relative=True), _n_args_override=4),
